@@ -40,11 +40,12 @@ type chainCfg struct {
 }
 
 type chainIn struct {
-	Cfg  chainCfg `json:"cfg"`
-	Name int      `json:"name"`
-	Type int      `json:"type"`
-	NQ   int      `json:"nq"`
-	Tr   struct {
+	Cfg   chainCfg `json:"cfg"`
+	Name  int      `json:"name"`
+	Type  int      `json:"type"`
+	Class int      `json:"class"`
+	NQ    int      `json:"nq"`
+	Tr    struct {
 		Proto string `json:"proto"`
 		Buf   int    `json:"buf"`
 	} `json:"tr"`
@@ -71,8 +72,12 @@ func (chainExporter) ConsumeStats(string, *metrics.Stats) error { return nil }
 
 type chainTCPWriter struct{ semWriter }
 
-func (w *chainTCPWriter) RemoteAddr() net.Addr { return &net.TCPAddr{IP: net.ParseIP("127.0.0.1"), Port: 40212} }
-func (w *chainTCPWriter) LocalAddr() net.Addr  { return &net.TCPAddr{IP: net.ParseIP("127.0.0.1"), Port: 53} }
+func (w *chainTCPWriter) RemoteAddr() net.Addr {
+	return &net.TCPAddr{IP: net.ParseIP("127.0.0.1"), Port: 40212}
+}
+func (w *chainTCPWriter) LocalAddr() net.Addr {
+	return &net.TCPAddr{IP: net.ParseIP("127.0.0.1"), Port: 53}
+}
 
 type chainResp struct {
 	semResp
@@ -111,7 +116,11 @@ func chainQuery(e *chainIn) *dns.Msg {
 	m := new(dns.Msg)
 	m.Id = dns.Id()
 	if e.NQ > 0 {
-		m.Question = []dns.Question{{Name: chainNames[e.Name], Qtype: uint16(e.Type), Qclass: dns.ClassINET}}
+		cl := uint16(e.Class)
+		if cl == 0 {
+			cl = dns.ClassINET
+		}
+		m.Question = []dns.Question{{Name: chainNames[e.Name], Qtype: uint16(e.Type), Qclass: cl}}
 	}
 	if e.Tr.Buf > 0 {
 		m.SetEdns0(uint16(e.Tr.Buf), false)
@@ -216,7 +225,7 @@ func chainMain(args []string) {
 			if e.Tr.Proto == "udp" && e.Tr.Buf > 0 {
 				c.UDPSize = uint16(e.Tr.Buf)
 			}
-			out := map[string]interface{}{"ev": "x", "cfg": cfg, "name": e.Name, "type": e.Type, "nq": e.NQ, "proto": e.Tr.Proto, "buf": e.Tr.Buf, "listener": e.Listener,
+			out := map[string]interface{}{"ev": "x", "cfg": cfg, "name": e.Name, "type": e.Type, "class": e.Class, "nq": e.NQ, "proto": e.Tr.Proto, "buf": e.Tr.Buf, "listener": e.Listener,
 				"is_whoami": cfg.Whoami && e.NQ > 0 && strings.EqualFold(chainNames[e.Name], chainWhoami), "received": false, "alive": true, "backend": driver, "err": ""}
 			empty := chainResp{semResp: semResp{An: []semRR{}, Ns: []semRR{}, Ex: []semRR{}, ECS: semRespECS{B: []int{}}}}
 			out["t"], out["i"] = empty, empty
@@ -232,7 +241,17 @@ func chainMain(args []string) {
 				if e.Tr.Proto == "udp" {
 					co.UDPSize = 65535
 				}
-				if err := co.WriteMsg(q); err != nil {
+				if e.NQ < 0 {
+					// header only: QDCOUNT says 1, no question follows (TCP: with its 2-byte length prefix)
+					hdr := []byte{byte(q.Id >> 8), byte(q.Id), 0x01, 0x00, 0, 1, 0, 0, 0, 0, 0, 0}
+					if e.Tr.Proto == "tcp" {
+						hdr = append([]byte{0, 12}, hdr...)
+					}
+					if _, err := co.Conn.Write(hdr); err != nil {
+						out["err"] = err.Error()
+						return
+					}
+				} else if err := co.WriteMsg(q); err != nil {
 					out["err"] = err.Error()
 					return
 				}
